@@ -57,21 +57,33 @@ Fixpoint loop_steps (fuel : nat) (H : ham) (init : nat * (nat * side)) (pos : na
       end
   end.
 
-(* make_loop_update_with_rng(None, ...) *)
+(* the variable slots of all stored operators in imaginary-time order: (position, relative variable) *)
+Definition var_slots (sl : slots) : list (nat * nat) :=
+  flat_map (fun p => match get_op sl p with
+                     | Some o => map (fun v => (p, v)) (seq 0 (length (o_vars o)))
+                     | None => []
+                     end) (occupied sl).
+
+(* make_loop_update_with_rng(None, ...), after fix: the starting leg is uniform over the legs of ALL stored
+   operators (one draw over the variable slots in time order, then the direction bit) *)
 Definition loop_update (fuel : nat) (H : ham) (sl : slots) (st : state) : prog (option (slots * state)) :=
   let n := count_ops sl in
   if Nat.eqb n 0 then Ret (Some (sl, st))
   else
-    Unif (N.of_nat n) (fun iN =>
-      let p := nth (N.to_nat iN mod n) (occupied sl) 0 in
-      match get_op sl p with
-      | None => Ret None
-      | Some o =>
-          let k := length (o_vars o) in
-          if Nat.eqb k 0 then Ret (Some (sl, st))
-          else
-            Unif (N.of_nat k) (fun vN =>
+    let vs := var_slots sl in
+    let tv := length vs in
+    if Nat.eqb tv 0 then Ret (Some (sl, st))
+    else
+      Unif (N.of_nat tv) (fun rN =>
+        let pv := nth (N.to_nat rN mod tv) vs (0, 0) in
+        let p := fst pv in
+        let v := snd pv in
+        match get_op sl p with
+        | None => Ret None
+        | Some o =>
+            if Nat.ltb v (length (o_vars o)) then
               Bit (fun b =>
-                let leg := (N.to_nat vN, if b then Inputs else Outputs) in
-                loop_steps fuel H (p, leg) p leg sl st))
-      end).
+                let leg := (v, if b then Inputs else Outputs) in
+                loop_steps fuel H (p, leg) p leg sl st)
+            else Ret None
+        end).
